@@ -1,4 +1,5 @@
 import RockitModel.Proofs.Colloc
+import RockitModel.Proofs.Weights
 import RockitModel.Model.Transcribe
 import Mathlib.Data.List.Nodup
 import Mathlib.Algebra.Order.Field.Basic
@@ -109,6 +110,72 @@ theorem end_is_value_at_one (tau : List K) (Xc : List V) :
   simp [collocEnd, collocCoeff, vpoly, List.map_map, Function.comp_def]
 
 end vpoly
+
+section polynomial_trajectories
+/-! ### the scheme reproduces polynomial trajectories, for every degree and every pairwise distinct points
+
+If the helper states are the values `q(node_r)` of a (scalar) polynomial `q` with at most `d+1` coefficients, the collocation
+polynomial IS `q`: the slope the defect rows compare with the right-hand side is `q'(τ_j)/h` and the end value the continuity row
+uses is `q(1)`. So a trajectory that is a polynomial of degree ≤ d on each step is feasible exactly when it satisfies the ODE at the
+collocation times. -/
+
+theorem lincomb_scalar (cs vs : List K) : lincomb cs vs = (List.zipWith (· * ·) cs vs).sum := by
+  induction cs generalizing vs with
+  | nil => simp [lincomb]
+  | cons c cs ih =>
+    cases vs with
+    | nil => simp [lincomb]
+    | cons v vs => simp [lincomb, ih]
+
+theorem zipWith_range_map (f g : Nat → K) (n : Nat) :
+    List.zipWith (· * ·) ((List.range n).map f) ((List.range n).map g) = (List.range n).map (fun r => f r * g r) := by
+  rw [List.zipWith_map]
+  simp [List.zipWith_self]
+
+theorem vpoly_of_polynomial (nodes : List K) (hn : nodes.Nodup) (hne : nodes ≠ []) (q : List K) (hq : q.length ≤ nodes.length) (s : K) :
+    vpoly nodes (nodes.map (LP.eval q)) s = LP.eval q s := by
+  have e : nodes.map (LP.eval q) = (List.range nodes.length).map (fun r => LP.eval q (nodes.getD r 0)) := by
+    apply List.ext_getElem
+    · simp
+    · intro i h1 h2
+      have hi : i < nodes.length := by simpa using h1
+      simp [List.getD_eq_getElem?_getD, hi]
+  rw [vpoly, e, lincomb_scalar, zipWith_range_map, ← LP.interp_exact_eval nodes hn q hq hne s]
+  congr 1
+  apply List.map_congr_left
+  intro r _
+  ring
+
+theorem vpolyDeriv_of_polynomial (nodes : List K) (hn : nodes.Nodup) (hne : nodes ≠ []) (q : List K) (hq : q.length ≤ nodes.length) (s : K) :
+    vpolyDeriv nodes (nodes.map (LP.eval q)) s = LP.eval (LP.deriv q) s := by
+  have e : nodes.map (LP.eval q) = (List.range nodes.length).map (fun r => LP.eval q (nodes.getD r 0)) := by
+    apply List.ext_getElem
+    · simp
+    · intro i h1 h2
+      have hi : i < nodes.length := by simpa using h1
+      simp [List.getD_eq_getElem?_getD, hi]
+  rw [vpolyDeriv, e, lincomb_scalar, zipWith_range_map, ← LP.interp_exact_deriv nodes hn q hq hne s]
+  congr 1
+  apply List.map_congr_left
+  intro r _
+  ring
+
+/-- **the defect of a polynomial trajectory is its ODE residual**: with helper states `q(0), q(τ_1), …, q(τ_d)` the slope used by
+defect row `j` is `q'(τ_j)/h` and the end value used by the continuity row is `q(1)` — any degree `d`, any pairwise distinct
+points in which `0` does not occur -/
+theorem polynomial_trajectory_exact (tau : List K) (hn : ((0:K) :: tau).Nodup) (q : List K) (hq : q.length ≤ tau.length + 1)
+    (j : Nat) (hj : j < tau.length) (dt : K) :
+    collocSlope (collocCoeff tau).C (((0:K) :: tau).map (LP.eval q)) j dt = (1 / dt) * LP.eval (LP.deriv q) tau[j] ∧
+    collocEnd (collocCoeff tau).D (((0:K) :: tau).map (LP.eval q)) = LP.eval q 1 := by
+  constructor
+  · rw [slope_is_derivative tau _ j hj dt, vpolyDeriv_of_polynomial _ hn (by simp) q (by simpa using hq)]
+    rfl
+  · rw [end_is_value_at_one, vpoly_of_polynomial _ hn (by simp) q (by simpa using hq)]
+
+/-- non-vacuity: Radau points of degree 2 and a quadratic trajectory -/
+example : ((0:ℚ) :: [1/3, 1]).Nodup ∧ ([1, 2, 3] : List ℚ).length ≤ ([1/3, 1] : List ℚ).length + 1 := ⟨by norm_num, by simp⟩
+
+end polynomial_trajectories
 
 /-- the formal derivative of a list polynomial is its derivative (so `Π'` above is `dΠ/ds`) -/
 theorem derivAux_succ (n : Nat) (p : List K) (s : K) :
